@@ -140,13 +140,21 @@ def _root_.MV.Action.asksFor (n a : Nat) : Action → Prop
   | .reallocFail _ oa ns => n ≤ ns ∧ oa = a
   | _ => False
 
+/-- a request the allocator satisfied / refused -/
+def _root_.MV.Action.granted : Action → Bool
+  | .alloc .. | .realloc .. => true
+  | _ => false
+def _root_.MV.Action.refusedReq : Action → Bool
+  | .allocFail .. | .reallocFail .. => true
+  | _ => false
+
 inductive GrowOutcome (E : Env) (s : GS) (c a : Nat) : Except Panic Unit × GS → Prop
   | noop : c = s.C → a = s.A E → GrowOutcome E s c a (.ok (), s)
   | rejected (p : Panic) : p ≠ .allocError → p ≠ .fuel → GrowOutcome E s c a (.error p, s)
   | allocFailed (req : Action) (L : Layout) : make_layout E c a = .ok L →
-      req.asksFor L.size a → GrowOutcome E s c a (.error .allocError, s.refused req)
+      req.asksFor L.size a → req.refusedReq = true → GrowOutcome E s c a (.error .allocError, s.refused req)
   | grown (req : Action) (L : Layout) : make_layout E c a = .ok L → s.L ≤ c →
-      req.asksFor L.size a → allocRefused E s L.size = false →
+      req.asksFor L.size a → req.granted = true → allocRefused E s L.size = false →
       GrowOutcome E s c a (.ok (), s.grown c a req)
 
 theorem make_layout_error_kind (E : Env) (c a : Nat) (p : Panic) (h : make_layout E c a = .error p) :
@@ -222,10 +230,10 @@ theorem grow_cases (E : Env) (s : GS) (c a : Nat) (hf : s.fresh = none) :
         | true =>
           simp only [if_true]
           cases hr : allocRefused E s L.size with
-          | true => simp only [if_true]; exact .allocFailed _ L hL ⟨Nat.le_refl _, hLa⟩
+          | true => simp only [if_true]; exact .allocFailed _ L hL ⟨Nat.le_refl _, hLa⟩ rfl
           | false =>
             simp only [Bool.false_eq_true, if_false]
-            exact .grown _ L hL (by omega) ⟨Nat.le_refl _, hLa⟩ hr
+            exact .grown _ L hL (by omega) ⟨Nat.le_refl _, hLa⟩ rfl hr
         | false =>
           simp only [Bool.false_eq_true, if_false]
           cases hL0 : make_layout E s.cap a with
@@ -235,9 +243,9 @@ theorem grow_cases (E : Env) (s : GS) (c a : Nat) (hf : s.fresh = none) :
           | ok L0 =>
             have hL0a := (make_layout_honest E _ a L0 hL0).2.1
             cases hr : allocRefused E s L.size with
-            | true => simp only [if_true]; exact .allocFailed _ L hL ⟨Nat.le_refl _, hL0a⟩
+            | true => simp only [if_true]; exact .allocFailed _ L hL ⟨Nat.le_refl _, hL0a⟩ rfl
             | false =>
               simp only [Bool.false_eq_true, if_false]
-              exact .grown _ L hL (by omega) ⟨Nat.le_refl _, hL0a⟩ hr
+              exact .grown _ L hL (by omega) ⟨Nat.le_refl _, hL0a⟩ rfl hr
 
 end MV.Gen
